@@ -95,6 +95,10 @@ func genOutCase(t *rapid.T, forceSigned bool) OutCase {
 		}
 		n := rapid.IntRange(0, 4).Draw(t, "nContexts")
 		for i := 0; i < n; i++ {
+			if rapid.IntRange(0, 3).Draw(t, "multiWordContext") == 0 {
+				sp.RAC.Contexts = append(sp.RAC.Contexts, rapid.SampledFrom([]string{"a b", "b c", "urn:x urn:y", "level 2 strong", "a  b"}).Draw(t, "contextWords"))
+				continue
+			}
 			sp.RAC.Contexts = append(sp.RAC.Contexts, genOutText(t, "context", false))
 		}
 	}
@@ -221,7 +225,36 @@ func genOutCase(t *rapid.T, forceSigned bool) OutCase {
 }
 
 // produce calls the builder and serialises the way a caller does.
+// siblingRAC returns a RequestedAuthnContext that carries the same words as rac, split differently between the
+// Comparison and the contexts (same number of contexts): "a b","c" <-> "a","b c"; "minimum level",["x"] <->
+// "minimum",["level x"]. Nil when rac has no such sibling. Whatever was built for the sibling must not leak.
+func siblingRAC(rac *h.RAC) *h.RAC {
+	if rac == nil {
+		return nil
+	}
+	parts := append([]string{rac.Comparison}, rac.Contexts...)
+	for i := 0; i+1 < len(parts); i++ {
+		if j := strings.LastIndex(parts[i], " "); j > 0 && j+1 < len(parts[i]) { // move the last word to the right
+			sib := append([]string{}, parts...)
+			sib[i], sib[i+1] = parts[i][:j], parts[i][j+1:]+" "+parts[i+1]
+			return &h.RAC{Comparison: sib[0], Contexts: sib[1:]}
+		}
+		if j := strings.Index(parts[i+1], " "); j > 0 && j+1 < len(parts[i+1]) { // move the first word to the left
+			sib := append([]string{}, parts...)
+			sib[i], sib[i+1] = parts[i]+" "+parts[i+1][:j], parts[i+1][j+1:]
+			return &h.RAC{Comparison: sib[0], Contexts: sib[1:]}
+		}
+	}
+	return nil
+}
+
 func (c *OutCase) produce() (string, *saml2.SAMLServiceProvider, error) {
+	if sib := siblingRAC(c.SP.RAC); sib != nil && strings.HasPrefix(c.Kind, "authn") {
+		// another service provider in the same process, configured with the sibling, builds first
+		o := c.SP
+		o.RAC = sib
+		o.Build().BuildAuthRequestDocumentNoSig()
+	}
 	sp := c.SP.Build()
 	var doc *etree.Document
 	var err error
